@@ -88,6 +88,17 @@ CHECKS = {
              "acceptance: sd <= bound(1+8/sqrt(2n)), |mean| <= bound/4 + 8 bound/sqrt(n), max < 3/64, class variances pairwise within 8 sigma.",
         note="Statistical clauses are hypothesis tests with >= 8 sigma wide regions (quick: ~1500 gate outputs on spqlios-fma; thorough: five back-ends, ~10^4 outputs on the fast ones). Degradations below ~10-20 % of the bound are not detected.",
         design="§6 C02"),
+    "C15": dict(
+        category="model_checking",
+        technique="Frame conditions of MachineP / MC_Gadget model-checked by TLC; every evaluation entry point of the real library called with every aliasing pattern, "
+                  "content hashes of all inputs, keys, parameters and the generator before/after validated by TLC against Trace_Eval (frame + output-is-a-function memo) and Trace_MachineP",
+        text="In the specification every evaluation action changes the destination register only and is enabled when the destination is one of the sources (TLC enumerates all aliasing patterns); the decomposition's "
+             "dirty window on its const input closes inside the call (MC_Gadget). On the real library all 14 gates (patterns none, r=a, r=b, r=c, a=b, all), tfhe_bootstrap(_woKS)(_FFT), blindRotateAndExtract(_FFT) with an "
+             "arbitrary test polynomial, blindRotate_FFT, lweKeySwitch, extraction and the three external products are called; each call is an event with 62-bit content hashes of every input, of the complete cloud key "
+             "(bk, bkFFT incl. Lagrange data, both key-switching keys) and parameters before and after, of the output, and a generator-state comparison. TLC requires: non-aliased inputs, keys, parameters unchanged; generator "
+             "unmoved; and the output equal to the memoised output of any earlier call with the same (operation, key, inputs) -- which makes every aliased call agree bit for bit with its non-aliased twin.",
+        note="Equality is decided on 62-bit hashes (collision probability negligible). Quick: 128-bit set on spqlios-fma and 80-bit set on nayuki-portable (optim); thorough: five back-ends, both sets, two debug builds.",
+        design="§6 C15"),
 }
 
 NOT_YET = {}
